@@ -165,8 +165,16 @@ func (g *gen) pct(label string, p int) bool {
 func (g *gen) word() string {
 	a := g.intn("w1", 0, len(words)-1)
 	b := g.intn("w2", 0, len(words)-1)
+	n := len(words)
 	for i := 0; ; i++ {
-		w := words[(a+i)%len(words)] + "_" + words[(b+i/len(words))%len(words)]
+		w := words[(a+i)%n] + "_" + words[(b+i/n)%n]
+		if i >= n*n {
+			// every two-word name is taken (very large workspaces): go on with three-word names
+			w += "_" + words[(i/(n*n)-1)%n]
+			if i >= n*n*(n+1) {
+				w += fmt.Sprintf("%d", i)
+			}
+		}
 		if !g.used[w] {
 			g.used[w] = true
 			return w
